@@ -7,6 +7,7 @@ import (
 	"time"
 
 	"github.com/influxdata/influxdb/models"
+	"github.com/influxdata/influxdb/pkg/verifhook"
 	"github.com/influxdata/influxdb/services/meta"
 	"github.com/influxdata/influxdb/tcp"
 )
@@ -181,6 +182,7 @@ func (c *connFactory) dial() (net.Conn, error) {
 		conn.Close()
 		return nil, err
 	}
+	conn = verifhook.WrapConn(c.nodeID, conn)
 
 	return conn, nil
 }
